@@ -806,6 +806,28 @@ def text_consumers_rule(ctx, rule: str):
                     out.add(nm)
         return out
 
+    # the attribute(s) of a DNARegex that hold the pattern compiled from the transcribed structure
+    rx_cls = p.get_class("moclo.regex.DNARegex")
+    compiled_attrs = set()
+    for raw_ in rx_cls.attrs.values():
+        if isinstance(raw_, FuncInfo):
+            for a_ in ast.walk(raw_.node):
+                if isinstance(a_, ast.Assign) and isinstance(a_.value, ast.Call) and ast.unparse(a_.value.func) in ("re.compile", "compile"):
+                    compiled_attrs |= {t_.attr for t_ in a_.targets if isinstance(t_, ast.Attribute)}
+    if not compiled_attrs:
+        raise AnalysisError("anchor vanished: no attribute of DNARegex is bound to re.compile(...)")
+
+    def is_compiled_pattern(recv, fn_node, depth=2) -> bool:
+        """the receiver of .match/.search is the structure's own compiled pattern (self.regex, or a local bound to it),
+        not some other pattern or the `re` module applied to a pattern of its own"""
+        if isinstance(recv, ast.Attribute) and recv.attr in compiled_attrs:
+            return True
+        if isinstance(recv, ast.Name) and depth > 0:
+            binds_ = [a_.value for a_ in ast.walk(fn_node) if isinstance(a_, ast.Assign) and len(a_.targets) == 1
+                      and isinstance(a_.targets[0], ast.Name) and a_.targets[0].id == recv.id]
+            return bool(binds_) and all(is_compiled_pattern(b_, fn_node, depth - 1) for b_ in binds_)
+        return False
+
     n_uses = 0
     seeded: Dict[str, set] = {}
     k_todo = 0
@@ -835,10 +857,11 @@ def text_consumers_rule(ctx, rule: str):
                         binds = [a.value for a in ast.walk(fn) if isinstance(a, ast.Assign) and len(a.targets) == 1
                                  and isinstance(a.targets[0], ast.Name) and a.targets[0].id == f.id]
                         if len(binds) == 1 and isinstance(binds[0], ast.Attribute):
-                            f = binds[0]
-                    ok = (isinstance(f, ast.Attribute) and f.attr in ("match", "fullmatch", "search", "finditer")) or (isinstance(f, ast.Name) and f.id in ("len", "str"))
+                            f = binds[0]  # (its receiver is judged below like a direct call's)
+                    ok = (isinstance(f, ast.Attribute) and f.attr in ("match", "fullmatch", "search", "finditer") and is_compiled_pattern(f.value, fn)) \
+                        or (isinstance(f, ast.Name) and f.id in ("len", "str"))
                     if not ok and ast.unparse(f) in ("functools.partial", "partial") and par.args and isinstance(par.args[0], ast.Attribute) \
-                            and par.args[0].attr in ("match", "fullmatch") and n in par.args[1:]:
+                            and par.args[0].attr in ("match", "fullmatch") and n in par.args[1:] and is_compiled_pattern(par.args[0].value, fn):
                         ok = True  # the compiled pattern's match, with the text bound in advance
                     g = helper_of(fi, par) if not ok else None
                     if g is not None and not any(isinstance(x, ast.Starred) for x in par.args):
